@@ -14,7 +14,7 @@ states, by evaluating the model there:
   `≤ 0.99` passes the squeeze test of Marsaglia–Tsang: `Gamma.sample` returns `d·v/β` after one iteration;
 * concrete states (seeds 1, 3, 8, 20; the words are computed by the kernel from the wyrand model) instantiate these and, through
   them, the hypotheses of `gamma_support_*`, `chi_squared_support_partial`, `t_formula` / `t_support_partial`, `beta_is_gamma_ratio` /
-  `beta_sample_support_partial`, `gamma_boost`, `mvn_sample_spec`.
+  `beta_sample_support_partial`, `gamma_boost`, `mvn_sample_spec_partial`.
 -/
 set_option linter.unusedSectionVars false
 set_option linter.unusedSimpArgs false
@@ -319,17 +319,17 @@ theorem drawN_two {β : Type} (f : Rng → Option (β × Rng)) (g g1 g2 : Rng) (
     (h1 : f g = some (x1, g1)) (h2 : f g1 = some (x2, g2)) : Rng.drawN? f 2 g = some ([x1, x2], g2) := by
   simp [Rng.drawN?, h1, h2]
 
-/-- Two consecutive normal draws return on seed 1: the hypothesis `hz` of `mvn_sample_spec` in dimension 2. -/
+/-- Two consecutive normal draws return on seed 1: the hypothesis `hz` of `mvn_sample_spec_partial` in dimension 2. -/
 theorem normal_pair_witness : ∃ z g', Rng.drawN? (Normal.sample 1 (0 : ℝ) 1) 2 ⟨1⟩ = some (z, g') ∧ z.length = 2 := by
   have h0 := normal_fast 0 (0 : ℝ) 1 _ _ _ d0_u64 d0_fast
   have h1 := normal_fast 0 (0 : ℝ) 1 _ _ _ d1_u64 d1_fast
   exact ⟨_, _, drawN_two (Normal.sample 1 (0 : ℝ) 1) _ _ _ _ _ h0 h1, rfl⟩
 
 /-- MVN in dimension 2 with the factor `L = [[2, 0], [1, 3]]` and mean `(1, -1)` returns on seed 1 and its entries are
-`μ_i + Σ_k L[i,k] z_k` (instantiates every hypothesis of `mvn_sample_spec`). -/
+`μ_i + Σ_k L[i,k] z_k` (instantiates every hypothesis of `mvn_sample_spec_partial`). -/
 theorem mvn_returns_witness : ∃ x g', MVN.sample 1 (⟨[1, -1], ⟨[2, 0, 1, 3], 2, 2⟩⟩ : MVN.Dist ℝ) ⟨1⟩ = some (x, g') ∧ x.length = 2 := by
   obtain ⟨z, g', hz, _⟩ := normal_pair_witness
-  obtain ⟨x, hx, hl, _⟩ := mvn_sample_spec 1 (⟨[1, -1], ⟨[2, 0, 1, 3], 2, 2⟩⟩ : MVN.Dist ℝ) ⟨1⟩ g' z 2 (by norm_num) rfl rfl rfl
+  obtain ⟨x, hx, hl, _⟩ := mvn_sample_spec_partial 1 (⟨[1, -1], ⟨[2, 0, 1, 3], 2, 2⟩⟩ : MVN.Dist ℝ) ⟨1⟩ g' z 2 (by norm_num) rfl rfl rfl
     (by simp [Mat.WF]) hz
   exact ⟨x, g', hx, hl⟩
 
